@@ -82,4 +82,10 @@ var metas = map[string]*meta{
 		Rule: "seq: Lua scripts generated from the handler grammar — before.mail_from_accepted and before.rcpt_to_accepted ∈ {absent, allow(), defer(), deny(), deny(451,\"t\"), return nil, return 7, return \"x\", return {}, error()}, before.message_stored ∈ 16 variants (absent, nil, false, rewrite of mailboxes/subject/from/to, fresh inbound_message, garbage, error, partial rewrite through shared address objects followed by error/nil), after.* ∈ {absent, ok, error}: quick = every single handler and every pair, thorough = full product; plus a Go listener registered before/after the Lua one answering allow/deny (first answer wins); each script × 2 senders (accepted/rejected origin) × 5 recipient sets (accepted, rejected, discarded, mixed) run as a live SMTP session. Oracle: the hook-decision model — deny ⇒ exactly that code and text, allow ⇒ accepted against policy, no answer/garbage/error ⇒ policy, replacement ⇒ stored in exactly the returned mailboxes with the returned from/to/subject, no answer ⇒ exactly the policy-only delivery (catches partial rewrites leaking through shared pointers). Non-trivial = a message was stored; distinct (script, dialogue) pairs.",
 		Assumptions: []string{"an explicit smtp.defer() from the first listener followed by a second listener is not pinned by the statement", "other Lua programs than the grammar's are not covered"},
 	},
+	"C11": {
+		ID: "C11", Level: "fault_enumeration",
+		Parts: []part{{Name: "crash", Bin: "std", Shards: 16}},
+		Rule: "every history of ≤3 (quick) / ≤4 (thorough) operations over {add m1, add m2 (same hash directory), mark-seen, remove oldest, remove newest/last remaining, purge} × cap∈{0,1,2} is executed on the real file store under strace; the syscall log (openat/write/close/mkdirat/unlinkat/renameat…, op boundaries marked by readlink calls) is parsed into file-system effects, and for the LAST operation of each history (every prefix of a history is itself a history) one directory image is materialised per crash state: before the first effect, after every effect, after every byte prefix of every write to an index file (raw bodies ≤256 B byte-exact, larger ones at 0/1/mid/len-1 and 4 KiB boundaries), and after every subset of a run of sibling unlinks of one RemoveAll walk. Each image is recovered with a fresh real file.Store: visit and listings succeed, untouched mailboxes identical, the touched mailbox equals the state before or after the operation (or a cap-eviction prefix), every listed message readable, and the mailbox accepts new mail. Non-trivial = a history whose last operation had file-system effects; distinct histories.",
+		Assumptions: []string{"process death: the persistent state is the effect of a prefix of the issued syscalls, the one in flight possibly partial (no power-loss reordering; the store never fsyncs)", "strace reports the store's syscalls faithfully; unknown mutating syscalls make the check fail loudly", "readdir order inside RemoveAll is arbitrary: all subsets of a sibling-unlink run are crash states"},
+	},
 }
